@@ -88,8 +88,9 @@ TEXT["C15"] = dict(
     text=("ExtractionRule::execute pushes the extracted entry iff its trigger evaluates true (and passes errors on); LogConfig::execute "
           "runs the rules in order into one step up to the first error; Logger::execute appends exactly one step (fired entries "
           "plus iteration count) iff something fired and nothing otherwise, with the configuration put back. Unbounded."),
-    note=("Trusted: Step/Log/holding mirrors. NOT covered: Step::push de-duplication kernel, compressed export, JSON/CBOR/RON "
-          "serialisation and decoding, configuration export."),
+    note=("Trusted: Step/Log/holding mirrors. Step::push de-duplication is a bounded Kani triple. The compressed-export kernel "
+          "CompressedLog::from is out of reach of both verifiers and is covered ONLY by a bounded native enumeration (labelled "
+          "native_bounded in the evidence, never counted as proved). NOT covered: JSON/CBOR/RON encoding/decoding, configuration export."),
 )
 TEXT["C17"] = dict(
     category="other",
@@ -97,6 +98,7 @@ TEXT["C17"] = dict(
     text=("The acceptance step is proved (unbounded) to reduce the two top single-individual populations to one holding either the "
           "candidate (top) or the current solution (below) whole, rest untouched, and to ALWAYS keep a strictly better candidate. "
           "GeometricCooling::map is value * alpha bit-exactly for all f64 (complete)."),
-    note=("Floats are uninterpreted in Verus: the acceptance probability, 'never as T -> 0 / always as T -> inf' and 'an equally good "
-          "candidate is always accepted' are NOT decided."),
+    note=("Floats are uninterpreted in Verus, and Kani cannot enter the State-based body: 'an at-least-as-good candidate is always "
+          "accepted' (equal values need exp(0) = 1 > u) and 'never as T -> 0' are covered ONLY by a bounded native grid run "
+          "(labelled native_bounded in the evidence, never counted as proved); the acceptance probability itself is not decided."),
 )
